@@ -194,6 +194,12 @@ func randomText(rng *rand.Rand) []byte {
 		case 2:
 			ls = append(ls, diffish[rng.Intn(len(diffish))])
 		case 4: // lines of arbitrary bytes (everything but newline), a few of them repeated
+			if rng.Intn(60) == 0 {
+				// a line at or beyond the size of a typical line buffer
+				k := []int{4094, 4095, 4096, 4097, 8192, 70000}[rng.Intn(6)]
+				ls = append(ls, strings.Repeat("L", k)+fmt.Sprint(rng.Intn(3)))
+				break
+			}
 			if len(ls) > 0 && rng.Intn(4) == 0 {
 				ls = append(ls, ls[rng.Intn(len(ls))])
 				break
